@@ -100,8 +100,8 @@ def run_cases(api, lines, cfg="dbg"):
 
 def stream(ctx, api, lines, family, describe, keyfn=None, crash_key=None, cfg="dbg"):
     """like Ctx.stream, for the tool runs: api names are reported as cli:<api> (check.replay dispatches on the prefix)"""
-    if not lines:
-        return
+    if not lines or not hasattr(ctx, "families"):
+        return          # (the collectors of C11 / C18 / C19 harvest library case lines only)
     recs, crashes = run_cases(api, lines, cfg)
     codes = vlib.run_judge(api, recs)
     fam = ctx.families.setdefault(family, {"cases": 0, "rejected": 0, "crashes": 0, "codes": {}, "exit_codes": {}})
